@@ -1,6 +1,7 @@
 package main
 
 import (
+	"strings"
 	"bytes"
 	"context"
 	"fmt"
@@ -46,11 +47,19 @@ func lawUniverse(rnd *lawRand) []lval {
 		{"bool:true", tengo.TrueValue}, {"bool:false", tengo.FalseValue}, {"undefined", tengo.UndefinedValue},
 		{"time:zero", &tengo.Time{Value: time.Time{}}}, {"time:t1", &tengo.Time{Value: t1}}, {"time:t2", &tengo.Time{Value: t2}},
 		{"time:t1-otherzone", &tengo.Time{Value: t1.In(time.FixedZone("X", 3600))}},
+		{"time:t1+1ns", &tengo.Time{Value: t1.Add(1)}}, {"time:t1+999ms", &tengo.Time{Value: t1.Add(999 * time.Millisecond)}},
 		{"error:e1", e1}, {"error:e1again", e1}, {"error:e2", &tengo.Error{Value: &tengo.String{Value: "x"}}},
 		{"array:[]", &tengo.Array{Value: mk()}}, {"array:[1]", &tengo.Array{Value: mk(i(1))}},
 		{"array:[1.0]", &tengo.Array{Value: mk(&tengo.Float{Value: 1})}}, {"array:[1,2]", &tengo.Array{Value: mk(i(1), i(2))}},
 		{"array:[[1],2]", &tengo.Array{Value: mk(shared, i(2))}}, {"array:[[1],[1]]", &tengo.Array{Value: mk(shared, shared)}},
 		{"array:[nan]", &tengo.Array{Value: mk(&tengo.Float{Value: math.NaN()})}},
+		{"array:[1.0,2]", &tengo.Array{Value: mk(&tengo.Float{Value: 1}, i(2))}},
+		{"array:[imm[1],2]", &tengo.Array{Value: mk(&tengo.ImmutableArray{Value: mk(i(1))}, i(2))}},
+		{"array:[imm{a:1}]", &tengo.Array{Value: mk(&tengo.ImmutableMap{Value: map[string]tengo.Object{"a": i(1)}})}},
+		{"array:[{a:1}]", &tengo.Array{Value: mk(&tengo.Map{Value: map[string]tengo.Object{"a": &tengo.Float{Value: 1}}})}},
+		{"immutable-array:[1.0,2]", &tengo.ImmutableArray{Value: mk(&tengo.Float{Value: 1}, i(2))}},
+		{"map:{a:[1.0]}", &tengo.Map{Value: map[string]tengo.Object{"a": &tengo.Array{Value: mk(&tengo.Float{Value: 1})}}}},
+		{"map:{a:imm[1]}", &tengo.Map{Value: map[string]tengo.Object{"a": &tengo.ImmutableArray{Value: mk(i(1))}}}},
 		{"immutable-array:[]", &tengo.ImmutableArray{Value: mk()}}, {"immutable-array:[1]", &tengo.ImmutableArray{Value: mk(i(1))}},
 		{"immutable-array:[[1],2]", &tengo.ImmutableArray{Value: mk(shared, i(2))}},
 		{"map:{}", &tengo.Map{Value: map[string]tengo.Object{}}}, {"map:{a:1}", &tengo.Map{Value: map[string]tengo.Object{"a": i(1)}}},
@@ -333,6 +342,11 @@ func lawsSingles(u []lval) {
 		// truthiness
 		rec["falsy_api"] = a.o.IsFalsy()
 		rec["falsy_script"] = scriptBool("!a", a.o, nil)
+		// the same variable on both sides, and one object reached through two variables / a container
+		rec["self_eq"] = scriptBool("a == a", a.o, nil)
+		rec["self_ne"] = scriptBool("a != a", a.o, nil)
+		rec["alias_eq"] = scriptBool("[a][0] == a", a.o, nil)
+		rec["self_api"] = a.o.Equals(a.o)
 		flag := "any"
 		switch o := a.o.(type) {
 		case *tengo.Int:
@@ -370,7 +384,7 @@ func lawsSingles(u []lval) {
 		if cp == nil {
 			rec["copy"] = V{"nil": true}
 		} else {
-			cinfo := V{"type": lawType(cp), "equal_api": cp.Equals(a.o) && a.o.Equals(cp), "same_snapshot": snapshot(cp) == before}
+			cinfo := V{"type": lawType(cp), "equal_api": cp.Equals(a.o) && a.o.Equals(cp), "same_snapshot": strings.ReplaceAll(snapshot(cp), `"imm":true`, `"imm":false`) == strings.ReplaceAll(before, `"imm":true`, `"imm":false`)} // a copy is mutable at every depth: the contents are compared, not the immutability
 			mutateAll(cp, 0)
 			cinfo["original_unchanged"] = snapshot(a.o) == before
 			rec["copy"] = cinfo
